@@ -358,3 +358,26 @@ func TestGlobalRandIsAReplayableDraw(t *testing.T) {
 		t.Fatalf("draws not logged: %v", oa.Draws)
 	}
 }
+
+// A ticker ticks on the virtual clock, drops ticks nobody takes, and stops.
+func TestTicker(t *testing.T) {
+	s := simrt.New(simrt.Config{Seed: 3, Strategy: simrt.StratRandom})
+	n := 0
+	var last time.Time
+	s.Go(func() {
+		tk := stime.NewTicker(10 * time.Millisecond)
+		for n < 5 {
+			now := simrt.Recv(tk.C)
+			if n > 0 && now.Sub(last) < 10*time.Millisecond {
+				panic("ticks closer together than the period")
+			}
+			last = now
+			n++
+		}
+		tk.Stop()
+	})
+	out := s.Run()
+	if n != 5 || out.Stuck || len(out.Panics) > 0 || out.SimNanos < int64(50*time.Millisecond) {
+		t.Fatalf("n=%d stuck=%v panics=%v simulated=%v", n, out.Stuck, out.Panics, time.Duration(out.SimNanos))
+	}
+}
